@@ -343,15 +343,18 @@ pub fn mem_config() -> routinator::Config {
     config
 }
 
-/// The four data sets used for history checks (origins and keys only).
+/// The four data sets used for history checks. One ASPA customer is
+/// absent, then has providers {1}, {1,2}, {2}: repeated changes of one
+/// customer across consecutive updates (merging them is order dependent).
 pub fn history_sets() -> Vec<DataSet> {
     let o = origin_universe();
     let k = key_universe();
-    let mk = |os: &[usize], ks: &[usize]| {
+    let mk = |os: &[usize], ks: &[usize], providers: &[u32]| {
         let mut ds = DataSet::default();
         for i in os { ds.origins.insert(o[*i]); }
         for i in ks { ds.keys.insert(k[*i].clone()); }
+        if !providers.is_empty() { ds.aspas.insert(7.into(), aspa(7, providers).providers); }
         ds
     };
-    vec![mk(&[], &[]), mk(&[0], &[]), mk(&[0, 1], &[0]), mk(&[1, 2], &[1])]
+    vec![mk(&[], &[], &[]), mk(&[0], &[], &[1]), mk(&[0, 1], &[0], &[1, 2]), mk(&[1, 2], &[1], &[2])]
 }
